@@ -19,6 +19,11 @@ import Mathlib.Tactic.Ring
 import Mathlib.Tactic.Linarith
 import Mathlib.Tactic.SplitIfs
 import Mathlib.Algebra.Order.Field.Rat
+import Mathlib.Algebra.Order.Field.Basic
+import Mathlib.Tactic.FieldSimp
+import Mathlib.Tactic.Positivity
+import Mathlib.Tactic.NormNum
+import Mathlib.Analysis.SpecialFunctions.Pow.Real
 
 namespace Wntr.Morph
 
@@ -882,6 +887,136 @@ def demoSkel : Skel := Skel.init
 example : (Skel.run (1 / 5) demoSkel [.trim "J2", .trim "J1"]).nodes.map (·.name) = ["R", "J1", "T"] := by decide +kernel
 example : mapGet (Skel.run (1 / 5) demoSkel [.trim "J2"]).map "J1" = ["J1", "J2"] := by decide +kernel
 example : skelOracle demoSkel (Skel.run (1 / 5) demoSkel [.trim "J2", .series "J1" "R" "T"]) = "ok" := by decide +kernel
+
+/-! ### merged pipes of the skeletonizer: what `_series_merge_properties` / `_parallel_merge_properties` preserve -/
+
+section merge
+variable {R : Type} [Field R] [LinearOrder R] [IsStrictOrderedRing R]
+
+/-- the laws of `x ↦ x ^ a` on positive numbers that the formulas rely on (true of `Real.rpow`) -/
+structure PowLaws (pw : R → R → R) : Prop where
+  pos : ∀ x a, 0 < x → 0 < pw x a
+  mul : ∀ x y a, 0 < x → 0 < y → pw (x * y) a = pw x a * pw y a
+  pow : ∀ x a b, 0 < x → pw (pw x a) b = pw x (a * b)
+  one : ∀ x, 0 < x → pw x 1 = x
+  neg : ∀ x a, 0 < x → pw x (-a) = (pw x a)⁻¹
+
+/-- Hazen-Williams resistance in the exponents of the series formula: head loss `h = κ · hwRes · φ(q)` -/
+def hwRes (pw : R → R → R) (x : MergeExp R) (L D C : R) : R := L / (pw D x.a * pw C x.b)
+
+/-- Hazen-Williams conductance in the exponents of the parallel formula: flow `q = κ' · hwCond · ψ(h)` -/
+def hwCond (pw : R → R → R) (x : MergeExp R) (L D C : R) : R := C * pw D x.c / pw L x.e
+
+variable (pw : R → R → R) (x : MergeExp R) (L0 D0 C0 L1 D1 C1 D : R)
+
+/-- what the series formula really yields, for ANY exponents: with `t = e·b`, `A = L/D^a`, `S = r₀ + r₁`, the merged
+resistance is `A^(1-t)·S^t` written as `A · S^t / A^t` -/
+theorem series_merge_resistance_general (h : PowLaws pw)
+    (hL0 : 0 < L0) (hD0 : 0 < D0) (hC0 : 0 < C0) (hL1 : 0 < L1) (hD1 : 0 < D1) (hC1 : 0 < C1) (hD : 0 < D) :
+    hwRes pw x (L0 + L1) D (seriesRough pw x L0 D0 C0 L1 D1 C1 D)
+      = ((L0 + L1) / pw D x.a) * pw (hwRes pw x L0 D0 C0 + hwRes pw x L1 D1 C1) (x.e * x.b) / pw ((L0 + L1) / pw D x.a) (x.e * x.b) := by
+  have hA : 0 < (L0 + L1) / pw D x.a := div_pos (by linarith) (h.pos _ _ hD)
+  have hr0 : 0 < L0 / (pw D0 x.a * pw C0 x.b) := div_pos hL0 (mul_pos (h.pos _ _ hD0) (h.pos _ _ hC0))
+  have hr1 : 0 < L1 / (pw D1 x.a * pw C1 x.b) := div_pos hL1 (mul_pos (h.pos _ _ hD1) (h.pos _ _ hC1))
+  have hS : 0 < L0 / (pw D0 x.a * pw C0 x.b) + L1 / (pw D1 x.a * pw C1 x.b) := by linarith
+  have hCm : pw (seriesRough pw x L0 D0 C0 L1 D1 C1 D) x.b
+      = pw ((L0 + L1) / pw D x.a) (x.e * x.b) * (pw (L0 / (pw D0 x.a * pw C0 x.b) + L1 / (pw D1 x.a * pw C1 x.b)) (x.e * x.b))⁻¹ := by
+    unfold seriesRough
+    rw [h.mul _ _ _ (h.pos _ _ hA) (h.pos _ _ hS), h.pow _ _ _ hA, h.pow _ _ _ hS, neg_mul, h.neg _ _ hS]
+  have hpA : 0 < pw ((L0 + L1) / pw D x.a) (x.e * x.b) := h.pos _ _ hA
+  have hpS : 0 < pw (L0 / (pw D0 x.a * pw C0 x.b) + L1 / (pw D1 x.a * pw C1 x.b)) (x.e * x.b) := h.pos _ _ hS
+  have hpD : 0 < pw D x.a := h.pos _ _ hD
+  unfold hwRes
+  rw [hCm]
+  field_simp
+
+/-- **series merge, the equivalence the formula aims at**: when the exponents are consistent (`e · b = 1`) the merged pipe has
+exactly the sum of the two resistances, hence the same head loss as the two pipes in series at every flow -/
+theorem series_merge_resistance (h : PowLaws pw) (heb : x.e * x.b = 1)
+    (hL0 : 0 < L0) (hD0 : 0 < D0) (hC0 : 0 < C0) (hL1 : 0 < L1) (hD1 : 0 < D1) (hC1 : 0 < C1) (hD : 0 < D) :
+    hwRes pw x (L0 + L1) D (seriesRough pw x L0 D0 C0 L1 D1 C1 D) = hwRes pw x L0 D0 C0 + hwRes pw x L1 D1 C1 := by
+  have hA : 0 < (L0 + L1) / pw D x.a := div_pos (by linarith) (h.pos _ _ hD)
+  have hr0 : 0 < hwRes pw x L0 D0 C0 := div_pos hL0 (mul_pos (h.pos _ _ hD0) (h.pos _ _ hC0))
+  have hr1 : 0 < hwRes pw x L1 D1 C1 := div_pos hL1 (mul_pos (h.pos _ _ hD1) (h.pos _ _ hC1))
+  rw [series_merge_resistance_general pw x L0 D0 C0 L1 D1 C1 D h hL0 hD0 hC0 hL1 hD1 hC1 hD, heb,
+    h.one _ hA, h.one _ (by linarith)]
+  exact mul_div_cancel_left₀ _ (ne_of_gt hA)
+
+theorem series_merge_equal_headloss (h : PowLaws pw) (heb : x.e * x.b = 1) (κ φ : R)
+    (hL0 : 0 < L0) (hD0 : 0 < D0) (hC0 : 0 < C0) (hL1 : 0 < L1) (hD1 : 0 < D1) (hC1 : 0 < C1) (hD : 0 < D) :
+    κ * hwRes pw x (L0 + L1) D (seriesRough pw x L0 D0 C0 L1 D1 C1 D) * φ
+      = κ * hwRes pw x L0 D0 C0 * φ + κ * hwRes pw x L1 D1 C1 * φ := by
+  rw [series_merge_resistance pw x L0 D0 C0 L1 D1 C1 D h heb hL0 hD0 hC0 hL1 hD1 hC1 hD]; ring
+
+omit [IsStrictOrderedRing R] in
+/-- **parallel merge**: the merged pipe has exactly the sum of the two conductances — for ANY exponents — hence the same total
+flow as the two parallel pipes at every head loss -/
+theorem parallel_merge_conductance (h : PowLaws pw) (L D : R)
+    (hL0 : 0 < L0) (hL1 : 0 < L1) (hL : 0 < L) (hD : 0 < D) :
+    hwCond pw x L D (parallelRough pw x L0 D0 C0 L1 D1 C1 L D) = hwCond pw x L0 D0 C0 + hwCond pw x L1 D1 C1 := by
+  have h1 := h.pos L x.e hL
+  have h2 := h.pos D x.c hD
+  have h3 := h.pos L0 x.e hL0
+  have h4 := h.pos L1 x.e hL1
+  unfold hwCond parallelRough
+  field_simp
+
+omit [IsStrictOrderedRing R] in
+theorem parallel_merge_equal_flow (h : PowLaws pw) (L D κ ψ : R)
+    (hL0 : 0 < L0) (hL1 : 0 < L1) (hL : 0 < L) (hD : 0 < D) :
+    κ * hwCond pw x L D (parallelRough pw x L0 D0 C0 L1 D1 C1 L D) * ψ
+      = κ * hwCond pw x L0 D0 C0 * ψ + κ * hwCond pw x L1 D1 C1 * ψ := by
+  rw [parallel_merge_conductance pw x L0 D0 C0 L1 D1 C1 h L D hL0 hL1 hL hD]; ring
+
+end merge
+
+/-- non-vacuity / instantiation: the real power function satisfies the laws, so the theorems above hold for the real formulas -/
+theorem powLaws_real : PowLaws (fun x a : ℝ => x ^ a) where
+  pos := fun _ a hx => Real.rpow_pos_of_pos hx a
+  mul := fun _ _ _ hx hy => Real.mul_rpow (le_of_lt hx) (le_of_lt hy)
+  pow := fun _ a b hx => (Real.rpow_mul (le_of_lt hx) a b).symm
+  one := fun x _ => Real.rpow_one x
+  neg := fun _ a hx => Real.rpow_neg (le_of_lt hx) a
+
+/-- with consistent exponents (here `e = 1/b`) the real series formula is exact -/
+example (L0 D0 C0 L1 D1 C1 D : ℝ) (hL0 : 0 < L0) (hD0 : 0 < D0) (hC0 : 0 < C0) (hL1 : 0 < L1) (hD1 : 0 < D1) (hC1 : 0 < C1) (hD : 0 < D) :
+    let x : MergeExp ℝ := { a := 4.871, b := 1.852, e := 1 / 1.852, c := 2.63 }
+    hwRes (fun x a : ℝ => x ^ a) x (L0 + L1) D (seriesRough (fun x a : ℝ => x ^ a) x L0 D0 C0 L1 D1 C1 D)
+      = hwRes (fun x a : ℝ => x ^ a) x L0 D0 C0 + hwRes (fun x a : ℝ => x ^ a) x L1 D1 C1 :=
+  series_merge_resistance _ _ _ _ _ _ _ _ _ powLaws_real (by norm_num) hL0 hD0 hC0 hL1 hD1 hC1 hD
+
+/-- the literals of wntr/morph/skel.py -/
+def codeExpQ : MergeExp Rat := { a := 487 / 100, b := 185 / 100, e := 54 / 100, c := 263 / 100 }
+
+/-- WHERE THE SERIES EQUIVALENCE DOES NOT HOLD: the code's exponents are not consistent, `0.54 · 1.85 = 0.999`, so by
+`series_merge_resistance_general` the merged resistance is `A^0.001 · S^0.999` instead of `S` (≈ +0.9 % head loss for C ≈ 100);
+nor do they match the flow form of the parallel formula (`1/0.54 ≠ 1.85`, `2.63/0.54 ≠ 4.87`) or the simulator's 1.852 / 4.871 -/
+theorem code_series_exponents_inconsistent :
+    codeExpQ.e * codeExpQ.b = 999 / 1000 ∧ codeExpQ.e * codeExpQ.b ≠ 1 ∧ 1 / codeExpQ.e ≠ codeExpQ.b ∧ codeExpQ.c / codeExpQ.e ≠ codeExpQ.a ∧
+    codeExpQ.b ≠ 1852 / 1000 ∧ codeExpQ.a ≠ 4871 / 1000 := by
+  simp only [codeExpQ]; norm_num
+
+/-! #### what a series merge does NOT keep (documented: "minor loss and pipe status of the merged pipe are set equal to [those of]
+the pipe selected for maximum diameter") -/
+
+/-- the merged pipe takes minor loss and status of the dominant pipe only -/
+theorem series_merge_takes_dominant (pw : Rat → Rat → Rat) (x : MergeExp Rat) (p0 p1 : MPipe Rat) :
+    let m := seriesProps pw x (fun a b => decide (a ≥ b)) p0 p1
+    m.length = p0.length + p1.length ∧
+    (p0.diam ≥ p1.diam → m.diam = p0.diam ∧ m.minor = p0.minor ∧ m.status = p0.status) ∧
+    (¬ p0.diam ≥ p1.diam → m.diam = p1.diam ∧ m.minor = p1.minor ∧ m.status = p1.status) := by
+  refine ⟨rfl, ?_, ?_⟩ <;> intro h <;> simp [seriesProps, h]
+
+/-- "two pipes in series pass water iff the merged pipe does" -/
+def SeriesMergeStatusFaithful : Prop :=
+  ∀ (pw : Rat → Rat → Rat) (x : MergeExp Rat) (p0 p1 : MPipe Rat),
+    ((seriesProps pw x (fun a b => decide (a ≥ b)) p0 p1).status == 1) = (p0.status == 1 && p1.status == 1)
+
+/-- FALSE: a CLOSED pipe in series with a larger OPEN pipe disappears into an OPEN merged pipe (and its minor loss with it) -/
+theorem series_merge_status_counterexample : ¬ SeriesMergeStatusFaithful := by
+  intro h
+  have := h (fun a _ => a) ⟨1, 1, 1, 1⟩ ⟨10, 2, 100, 0, 1⟩ ⟨10, 1, 100, 5, 0⟩
+  revert this; decide +kernel
 
 /-! ### the cycle loop of `_Skeletonize.run` terminates -/
 
